@@ -230,6 +230,15 @@ def mutate(rnd: random.Random, grammar: str, s: str) -> tuple[str, str]:
             return "".join(toks), "m-udigit"
         toks.insert(i, rnd.choice("٣３²"))
         return "".join(toks), "m-udigit"
+    if rnd.random() < 0.5:
+        # a letter REPLACED by the non-ASCII character re.IGNORECASE folds onto it (s -> U+017F, k -> U+212A, i -> U+0130 / U+0131):
+        # the regex still matches, str.lower() / table lookups downstream see a spelling they do not know (seeded change C19-6)
+        text = "".join(toks)
+        pos = [n for n, c in enumerate(text) if c in "sSkKiI"]
+        if pos:
+            n = rnd.choice(pos)
+            rep = {"s": "\u017f", "k": "\u212a", "i": rnd.choice("\u0130\u0131")}[text[n].lower()]
+            return text[:n] + rep + text[n + 1:], "m-fold"
     toks.insert(i, rnd.choice(FOLD_SPECIAL + ["é", "ß", "\x00", "\x01", "\x7f", "\\", "\U0001f600"]))
     return "".join(toks), "m-char"
 
